@@ -371,6 +371,8 @@ def run(ctx):
     r13_5(ctx, fx)
     r13_7(ctx, fx)
     r13_8(ctx, fx)
+    from common import check_no_dropped_futures
+    check_no_dropped_futures(ctx, fx, "R13.9", r"^protocol::request_response::.*::\{closure#0\}(::\{closure#\d+\})*$", "request-response", 6)
     # a request / query parked behind a dial is settled only if the dial's outcome is reported: the transport manager's obligations
     # R05.9 (stated in rules/C05.py) are part of this property's argument and evaluated here too
     import C05
